@@ -7,6 +7,7 @@ import SeataModel.Driver.C13
 import SeataModel.Driver.C04
 import SeataModel.Driver.C07
 import SeataModel.Driver.C19
+import SeataModel.Driver.C14
 
 open Seata.Driver
 
@@ -17,6 +18,7 @@ def dispatch (prop : String) (ws : List String) : String :=
   | "C04" => C04.handle ws
   | "C07" => C07.handle ws
   | "C19" => C19.handle ws
+  | "C14" => C14.handle ws
   | _ => "bad-prop"
 
 partial def loop (hin : IO.FS.Stream) (hout : IO.FS.Stream) : IO Unit := do
